@@ -344,7 +344,7 @@ impl MethodDescriptorSlice {
 			bail!("method descriptor {self:?} doesn't start with '('");
 		}
 
-		let mut size = 1; // implicit `this` argument
+		let mut size: u32 = 1; // implicit `this` argument
 		loop {
 			if chars.next_if_eq(&')').is_some() {
 				break;
@@ -366,7 +366,8 @@ impl MethodDescriptorSlice {
 			}
 		}
 
-		Ok(size)
+		// JVMS 4.3.3: at most 255 slots, counting `this`
+		u8::try_from(size).with_context(|| anyhow!("method descriptor {self:?} needs {size} argument slots, at most 255 are allowed"))
 	}
 }
 
